@@ -134,6 +134,48 @@ Extensions used by C19 / C17 / C10 (third translation-validation pass; all purel
 * slice key "late_externals": [(file, function)]: like spec["externals"], but the Section variable `ext_<f>` is declared
   in a section opened just before this function (`Section GenLate`), so that the text and the arity of the functions
   translated before it do not change; the function is callable from this and the following functions only.
+
+Extensions used by C12 / C06 / C05 (fourth translation-validation pass; all purely additive, off unless asked for):
+* slice markers: start {"first": True} (the first statement of the function that is not its docstring),
+  {"if_attr_is_not_none": a} (`if self.<a> is not None:`), {"assign_call": [v, "f"]} (`v = f(...)`, f a dotted name); stop {"to_end": True}
+  (to the end of a function that contains no return statement at all).
+* slice key "self_state": {"_samp_idx": "self__samp_idx"}: the attribute of self is a VARIABLE of the slice - every read
+  and every store of `self._samp_idx` (also a store through a subscript, `self._name_idx[k] = e`) is a read / store of
+  that slice variable, which is a parameter whose final value is the attribute's final value.  The class chain is checked
+  as for "self_attrs".  By-value reading: the object the attribute holds is shared with no other attribute or variable
+  (a dict built by index() itself; a tuple).  After the rewrites of self_state / self_attrs / struct_cols `self` may not
+  occur in the slice in any other way.
+* slice key "struct_cols": {"variants": {"id": "self_variants_id"}}: `self.variants` is a numpy structured array, of which
+  the slice may only read the column `self.variants["id"]` (the slice parameter named there: the list of its elements)
+  and the length `len(self.variants)`, which is emitted as `len(self_variants_id)` (numpy: every column of a structured
+  array has the length of the array; the harness relation checks this on the objects it passes).
+* slice key "raise_state": "$raised": every `raise X(...)` statement of the slice is emitted as `$raised = <kind>; return
+  None`, "$raised" a trailing parameter (initially None): the caller of the slice then sees the final values of the slice
+  variables AT the raise (run_fun alone discards them with the error).  Sound because nothing calls a slice and a slice
+  contains no try statement (rejected), so a raise leaves the slice at once, like a return.  Exceptions raised by
+  expressions are Err as before.
+* `dict(zip(a, b))` (`EDictZip`; the names dict / zip bound nowhere in the module or the function).
+* `x = Counter(e).items()` (`ECountItems`: the (key, count) pairs as a list; Counter imported from collections as for the
+  containers): such a name x - whatever it is bound to later - may only be READ as the iterable of a for loop /
+  comprehension, as the argument of len(), or inside a raise statement (whose arguments are not translated): a dict view
+  supports nothing else that a list supports.
+* in a top-level slice, a list comprehension `x = [elt for t in it if c ...]` with one generator whose target is a name or
+  a tuple of names, any number of conditions, and x possibly occurring in `it`: `_cN = []; for <fresh targets> in it: if
+  c: ...: _cN.append(elt); x = _cN[:]` (the simple form - a name target, no condition, x not in it - is emitted as before).
+* `for a, b in e` for an iterable other than enumerate(...): the loop runs over e with a hidden variable, `len(v) != 2`
+  raises ValueError, then a = v[0], b = v[1] (the elements must be tuples / lists; other iterables of length 2 are not
+  modelled: index_sem reports them).
+* `x = A if C else B` as a whole assignment to a name: `if C: x = A else: x = B`.
+* in a top-level slice, `a, b, c = map(f, e)` for an untranslated builtin f (spec["ext_builtins"]; the name map bound nowhere):
+  exactly Python's unpacking of the lazy map object - `_t = []; for _x in e: _t.append(f(_x)); if len(_t) > 3: raise
+  ValueError` then `if len(_t) != 3: raise ValueError; a = _t[0]; ...` (f is applied to at most n + 1 elements, in order).
+* slice key "log_calls": {"self.log.warning": "$out"}: the statement `self.log.warning(e)` (one positional argument) appends
+  the 1-tuple (e,) to the list parameter "$out" (what is logged is an output, in order with the other outputs).
+* slice key "class_attr_reads": ["version"]: an attribute named in "self_attrs" may be a class attribute bound by a plain
+  class-level assignment `version = <name or constant>` (a read of self.version then yields the instance's or the class's
+  value - whatever the object holds: the slice parameter); properties / methods of that name stay rejected.
+* spec["state_calls"] may name a plain function name (`err_msgr`): a callable handed to the function whose calls have an
+  effect (logging) or raise.
 """
 import ast
 import os
@@ -190,6 +232,9 @@ class Ctx:
         self.counter_ok = False         # set per function: the module imports collections.Counter under that name
         self.set_ok = False             # ... and does not bind the name `set`
         self.tuple_ok = False           # ... nor the name `tuple`
+        self.dictzip_ok = False         # ... nor the names `dict` / `zip`
+        self.map_ok = False             # ... nor the name `map`
+        self.raise_state = None         # set per slice: the stream variable that records a raise (see "raise_state")
         self.with_names = bool(spec.get("with_names"))
         self.dotted_raises = dict(spec.get("dotted_raises", {}))
         self.state_calls = dict(spec.get("state_calls", {}))
@@ -276,6 +321,7 @@ class FunTranslator:
         self.writes = dict(writes or {})     # receiver name -> (method, stream): `receiver.method(e)` appends e to stream
         self.containers = {}                 # name -> "counter" | "set" (see collect_containers)
         self.slice_vars = bool(slice_vars)   # a top-level slice: parameters = free variables (may be rebound and mutated)
+        self.raise_state = (ctx.raise_state if ctx is not None and slice_vars else None)
         self.through = {}                    # loop variable -> (iterated name, index expression): stores go through the loop
         self.objects = dict(objects or {})   # name -> state class name (the receiver of method calls)
         a = node.args
@@ -476,6 +522,12 @@ class FunTranslator:
                     return f"(EToInt {self.expr(e.args[0])})"
                 if f.id == "abs" and len(e.args) == 1:
                     return f"(EAbs {self.expr(e.args[0])})"
+                if f.id == "dict" and len(e.args) == 1 and self.ctx.dictzip_ok and isinstance(e.args[0], ast.Call) \
+                        and isinstance(e.args[0].func, ast.Name) and e.args[0].func.id == "zip" \
+                        and len(e.args[0].args) == 2 and not e.args[0].keywords \
+                        and not any(n in self.params or n in self.assigned for n in ("dict", "zip")):
+                    z = e.args[0]
+                    return f"(EDictZip {self.expr(z.args[0])} {self.expr(z.args[1])})"
                 if f.id in ("set", "tuple") and len(e.args) == 1 and f.id not in self.params \
                         and f.id not in self.assigned and (self.ctx.set_ok if f.id == "set" else self.ctx.tuple_ok):
                     self.check_collection_ctor(e)
@@ -513,6 +565,8 @@ class FunTranslator:
                     and not any(f.attr in ci.getters or f.attr in ci.methods for ci in self.classes.values()) \
                     and not (isinstance(f.value, ast.Name) and f.value.id in self.objects):
                 return f"(ECall {cstr('$m.' + f.attr)} {clist(self.expr(x) for x in [f.value] + list(e.args))})"
+            if self.is_counter_items(e):
+                return f"(ECountItems {self.expr(f.value.args[0])})"
             if isinstance(f, ast.Attribute) and f.attr == "copy" and not e.args \
                     and not any("copy" in ci.getters or "copy" in ci.methods for ci in self.classes.values()):
                 return f"(ECopy {self.expr(f.value)})"
@@ -522,6 +576,48 @@ class FunTranslator:
                 return f"(EIndexOf {self.expr(f.value)} {self.expr(e.args[0])})"
             _bad(e, "call")
         _bad(e, f"expression {type(e).__name__}")
+
+    def is_counter_items(self, e):
+        """Counter(<one argument>).items()"""
+        f = e.func if isinstance(e, ast.Call) else None
+        return (isinstance(f, ast.Attribute) and f.attr == "items" and not e.args and not e.keywords
+                and isinstance(f.value, ast.Call) and isinstance(f.value.func, ast.Name) and f.value.func.id == "Counter"
+                and len(f.value.args) == 1 and not f.value.keywords and self.ctx.counter_ok
+                and "Counter" not in self.params and "Counter" not in self.assigned)
+
+    def check_view_names(self):
+        """names bound by `x = Counter(e).items()`: every read of x is the iterable of a for loop, the argument of len(),
+        or inside a raise statement; Counter(e).items() occurs nowhere else"""
+        views, ok_calls = set(), set()
+        for n in ast.walk(self.node):
+            if isinstance(n, ast.Assign) and len(n.targets) == 1 and isinstance(n.targets[0], ast.Name) \
+                    and self.is_counter_items(n.value):
+                views.add(n.targets[0].id)
+                ok_calls.add(n.value)
+        for n in ast.walk(self.node):
+            if isinstance(n, ast.Call) and self.is_counter_items(n) and n not in ok_calls:
+                _bad(n, "Counter(e).items() other than as the whole right-hand side of an assignment to a name")
+        if not views:
+            return
+        parent = {}
+        for n in ast.walk(self.node):
+            for c in ast.iter_child_nodes(n):
+                parent[c] = n
+        for n in ast.walk(self.node):
+            if not (isinstance(n, ast.Name) and n.id in views and isinstance(n.ctx, ast.Load)):
+                continue
+            pt = parent.get(n)
+            if isinstance(pt, ast.For) and pt.iter is n:
+                continue
+            if isinstance(pt, ast.Call) and isinstance(pt.func, ast.Name) and pt.func.id == "len" and pt.args == [n] \
+                    and not pt.keywords and "len" not in self.params and "len" not in self.assigned:
+                continue
+            up = pt
+            while up is not None and not isinstance(up, ast.stmt):
+                up = parent.get(up)
+            if isinstance(up, ast.Raise):
+                continue
+            _bad(n, f"{n.id} may hold a dict view (Counter(e).items()): it may only be iterated over or measured with len()")
 
     def check_collection_ctor(self, e):
         """set(e) / tuple(e): only where the value built can never reach ==, `in`, .index(), a for loop or another
@@ -735,6 +831,35 @@ class FunTranslator:
                 return r
             if isinstance(t, ast.Name) and t.id in self.containers:
                 return f"(SAssign {cstr(t.id)} {'ECounter' if self.containers[t.id] == 'counter' else 'ESet'})"
+            if self.slice_vars and isinstance(t, ast.Tuple) and all(isinstance(x, ast.Name) for x in t.elts) \
+                    and len({x.id for x in t.elts}) == len(t.elts) and isinstance(s.value, ast.Call) \
+                    and isinstance(s.value.func, ast.Name) and s.value.func.id == "map" and self.ctx.map_ok \
+                    and "map" not in self.params and "map" not in self.assigned and len(s.value.args) == 2 \
+                    and not s.value.keywords and isinstance(s.value.args[0], ast.Name) \
+                    and s.value.args[0].id in self.ctx.ext_builtins:
+                # a, b, c = map(f, e): the unpacking of the lazy map object, element by element
+                n = len(t.elts)
+                tmp, x = self.fresh(), self.fresh()
+                it = self.expr(s.value.args[1])
+                fx = self.expr(ast.Call(func=s.value.args[0], args=[ast.Name(id=x, ctx=ast.Load(), lineno=s.lineno)],
+                                        keywords=[], lineno=s.lineno))
+                out = [f"(SAssign {cstr(tmp)} (EList []))",
+                       f"(SFor {cstr(x)} {it}\n (SSeq (SAppend (LVar {cstr(tmp)}) {fx})\n"
+                       f" (SIf (ECmp CGt (ELen (EVar {cstr(tmp)})) (EInt {n})) (SRaise 1) SSkip)))",
+                       f"(SIf (ECmp CNe (ELen (EVar {cstr(tmp)})) (EInt {n})) (SRaise 1) SSkip)"]
+                for k, v in enumerate(t.elts):
+                    out.append(f"(SAssign {cstr(v.id)} (EIndex (EVar {cstr(tmp)}) (EInt {k})))")
+                r = out[-1]
+                for st in reversed(out[:-1]):
+                    r = f"(SSeq {st}\n {r})"
+                return r
+            if isinstance(t, ast.Name) and isinstance(s.value, ast.IfExp) and self.slice_vars:
+                # x = A if C else B
+                v = s.value
+                if self.is_fun_call(v.test) or self.is_fun_call(v.body) or self.is_fun_call(v.orelse):
+                    _bad(s, "conditional expression with a call that mutates")
+                return (f"(SIf {self.expr(v.test)}\n (SAssign {cstr(t.id)} {self.expr(v.body)})\n"
+                        f" (SAssign {cstr(t.id)} {self.expr(v.orelse)}))")
             if isinstance(t, ast.Name):
                 if self.np_random(s.value, "choice", 1):
                     self.use_oracle("$choices")
@@ -899,6 +1024,21 @@ class FunTranslator:
         if isinstance(s, ast.For) and isinstance(s.target, ast.Tuple):
             # for i, x in enumerate(e): iterate over the (index, element) pairs and unpack
             t = s.target
+            if (self.slice_vars and not s.orelse and len(t.elts) == 2 and all(isinstance(x, ast.Name) for x in t.elts)
+                    and t.elts[0].id != t.elts[1].id
+                    and not (isinstance(s.iter, ast.Call) and isinstance(s.iter.func, ast.Name)
+                             and s.iter.func.id == "enumerate")):
+                # for a, b in e: unpack every element (ValueError unless it has exactly two items)
+                tmp = self.fresh()
+                it = self.expr(s.iter)
+                self.iterating.append(self.iter_root(s.iter))
+                self.for_stack.append(s)
+                body = self.block(s.body)
+                self.for_stack.pop()
+                self.iterating.pop()
+                unpack = [f"(SAssign {cstr(x.id)} (EIndex (EVar {cstr(tmp)}) (EInt {k})))" for k, x in enumerate(t.elts)]
+                return (f"(SFor {cstr(tmp)} {it}\n (SSeq (SIf (ECmp CNe (ELen (EVar {cstr(tmp)})) (EInt 2)) (SRaise 1) SSkip)\n"
+                        f" (SSeq {unpack[0]} (SSeq {unpack[1]}\n {body}))))")
             ok = (not s.orelse and len(t.elts) == 2 and all(isinstance(x, ast.Name) for x in t.elts)
                   and t.elts[0].id != t.elts[1].id
                   and isinstance(s.iter, ast.Call) and isinstance(s.iter.func, ast.Name) and s.iter.func.id == "enumerate"
@@ -1003,6 +1143,11 @@ class FunTranslator:
                 return f"(SRaise {ERR_KINDS[self.ctx.dotted_raises[d]]})"
             if not isinstance(exc, ast.Name) or exc.id not in ERR_KINDS:
                 _bad(s, "raise of an unknown exception class")
+            if self.raise_state:
+                if s.cause is not None or exc.id in self.params or exc.id in self.assigned:
+                    _bad(s, "raise ... from / a rebound exception class in a slice that records its raises")
+                self.use_oracle(self.raise_state)
+                return f"(SSeq (SAssign {cstr(self.raise_state)} (EInt {ERR_KINDS[exc.id]})) (SReturn ENone))"
             return f"(SRaise {ERR_KINDS[exc.id]})"
         _bad(s, f"statement {type(s).__name__}")
 
@@ -1126,6 +1271,7 @@ class FunTranslator:
         self.assigned_params = set()
         self.assigned = self.collect_assigned()
         self.containers = self.collect_containers()
+        self.check_view_names()
         self.locals = list(self.assigned)
         self.iterating = []
         real = [st for st in self.node.body if not (isinstance(st, ast.Expr) and isinstance(st.value, ast.Constant))]
@@ -1254,6 +1400,19 @@ def slice_top(fn, sl):
             return (isinstance(st, ast.Assign) and len(st.targets) == 1 and isinstance(st.targets[0], ast.Attribute)
                     and isinstance(st.targets[0].value, ast.Name) and bool(fn.args.args)
                     and st.targets[0].value.id == fn.args.args[0].arg and st.targets[0].attr == a["attr_assign"])
+        if a.get("first"):
+            real = [x for x in body if not (isinstance(x, ast.Expr) and isinstance(x.value, ast.Constant))]
+            return bool(real) and st is real[0]
+        if "if_attr_is_not_none" in a:
+            t = st.test if isinstance(st, ast.If) else None
+            return (t is not None and isinstance(t, ast.Compare) and len(t.ops) == 1 and isinstance(t.ops[0], ast.IsNot)
+                    and isinstance(t.left, ast.Attribute) and isinstance(t.left.value, ast.Name) and bool(fn.args.args)
+                    and t.left.value.id == fn.args.args[0].arg and t.left.attr == a["if_attr_is_not_none"]
+                    and isinstance(t.comparators[0], ast.Constant) and t.comparators[0].value is None)
+        if "assign_call" in a:
+            return (isinstance(st, ast.Assign) and len(st.targets) == 1 and isinstance(st.targets[0], ast.Name)
+                    and st.targets[0].id == a["assign_call"][0] and isinstance(st.value, ast.Call)
+                    and FunTranslator.dotted(st.value.func) == a["assign_call"][1])
         return False
 
     starts = [i for i, st in enumerate(body) if is_start(st)]
@@ -1297,6 +1456,10 @@ def slice_top(fn, sl):
         end = js[0] + 1
     elif b.get("single"):
         end = i0 + 1
+    elif b.get("to_end"):
+        if any(isinstance(n, ast.Return) for st in body for n in ast.walk(st)):
+            _bad(fn, f"{fn.name}: the function contains a return statement (slice {sl['name']} runs to its end)")
+        end = len(body)
     elif "before_assign" in b:
         js = [j for j in range(i0 + 1, len(body)) if isinstance(body[j], ast.Assign) and len(body[j].targets) == 1
               and isinstance(body[j].targets[0], ast.Name) and body[j].targets[0].id == b["before_assign"]]
@@ -1366,7 +1529,70 @@ def slice_top(fn, sl):
             for n in ast.walk(st):
                 if isinstance(n, ast.Name) and n.id == obj:
                     _bad(n, f"{fn.name}: {obj} is used other than by reading {sorted(amap)}")
+    for k, (dname, stream) in enumerate(dict(sl.get("log_calls", {})).items()):
+        syn = "_log_" + "".join(c if c.isalnum() else "_" for c in dname)
+        if syn in {n.id for n in ast.walk(fn) if isinstance(n, ast.Name)} | {x.arg for x in fn.args.args}:
+            _bad(fn, f"{fn.name}: the name {syn} occurs in the function")
+
+        class G(ast.NodeTransformer):
+            def visit_Expr(self, n):
+                v = n.value
+                if isinstance(v, ast.Call) and FunTranslator.dotted(v.func) == dname:
+                    if len(v.args) != 1 or v.keywords:
+                        _bad(n, f"{dname}(...): one positional argument expected")
+                    return ast.copy_location(ast.Expr(value=ast.Call(func=ast.Name(id=syn, ctx=ast.Load()), args=v.args,
+                                                                     keywords=[])), n)
+                return n
+
+        stmts = [G().visit(st) for st in stmts]
+        sl.setdefault("_outputs", {})[syn] = {"stream": stream, "args": [0]}
+    state = dict(sl.get("self_state", {}))
+    cols = {k: dict(v) for k, v in dict(sl.get("struct_cols", {})).items()}
+    if state or cols:
+        selfname = fn.args.args[0].arg if fn.args.args else None
+        if selfname is None or selfname in sl["params"]:
+            _bad(fn, f"{fn.name}: no self parameter")
+        used = {n.id for n in ast.walk(fn) if isinstance(n, ast.Name)} | {x.arg for x in fn.args.args}
+        new_names = list(state.values()) + [v for m in cols.values() for v in m.values()]
+        for v in new_names:
+            if v in used or new_names.count(v) != 1:
+                _bad(fn, f"{fn.name}: the name {v} (standing for an attribute of {selfname}) occurs in the function / twice")
+
+        len_bound = "len" in [x.arg for x in fn.args.args] or any(
+            isinstance(n, ast.Name) and n.id == "len" and not isinstance(n.ctx, ast.Load) for n in ast.walk(fn))
+
+        def is_self_attr(n, names):
+            return isinstance(n, ast.Attribute) and isinstance(n.value, ast.Name) and n.value.id == selfname \
+                and n.attr in names
+
+        class C(ast.NodeTransformer):
+            """self.variants["id"] -> the column parameter; len(self.variants) -> len(<the first column parameter>)"""
+            def visit_Subscript(self, n):
+                if is_self_attr(n.value, cols) and isinstance(n.ctx, ast.Load) and isinstance(n.slice, ast.Constant) \
+                        and n.slice.value in cols[n.value.attr]:
+                    return ast.copy_location(ast.Name(id=cols[n.value.attr][n.slice.value], ctx=ast.Load()), n)
+                return self.generic_visit(n)
+
+            def visit_Call(self, n):
+                if isinstance(n.func, ast.Name) and n.func.id == "len" and len(n.args) == 1 and not n.keywords \
+                        and is_self_attr(n.args[0], cols) and not len_bound:
+                    first = list(cols[n.args[0].attr].values())[0]
+                    return ast.copy_location(ast.Call(func=n.func, args=[ast.Name(id=first, ctx=ast.Load())], keywords=[]), n)
+                return self.generic_visit(n)
+
+        class S(ast.NodeTransformer):
+            def visit_Attribute(self, n):
+                if is_self_attr(n, state) and isinstance(n.ctx, (ast.Load, ast.Store)):
+                    return ast.copy_location(ast.Name(id=state[n.attr], ctx=n.ctx), n)
+                return self.generic_visit(n)
+
+        stmts = [S().visit(C().visit(st)) for st in stmts]
     attrs = dict(sl.get("self_attrs", {}))
+    if (state or cols) and not attrs:
+        for st in stmts:
+            for n in ast.walk(st):
+                if isinstance(n, ast.Name) and n.id == selfname:
+                    _bad(n, f"{fn.name}: {selfname} is used other than through the declared attributes")
     if attrs:
         selfname = fn.args.args[0].arg if fn.args.args else None
         if selfname is None or selfname in sl["params"]:
@@ -1459,7 +1685,8 @@ def desugar_listcomps(stmts, used):
                   and not any(isinstance(n, ast.Name) and n.id == x for n in inner)
                   and not any(isinstance(n, ast.Name) and n.id == g.target.id for n in ast.walk(g.iter)))
             if not ok:
-                _bad(st, "list comprehension outside the translated form")
+                out += desugar_listcomp_general(st, used)
+                continue
             k = 1
             while f"_c{k}" in used:
                 k += 1
@@ -1484,7 +1711,58 @@ def desugar_listcomps(stmts, used):
     return out
 
 
-def check_plain_attrs(classdefs, attrs):
+def desugar_listcomp_general(st, used):
+    """`x = [elt for <name or tuple of names> in it if c1 if c2 ...]` (one generator; x may occur in it / elt):
+    `_cA = []; for <fresh targets> in it: if c1: if c2: _cA.append(elt); x = _cA[:]` - the comprehension's own variables are
+    renamed to fresh names everywhere in elt and the conditions (they are local to the comprehension in Python, and `it`
+    is evaluated outside their scope)"""
+    lc, x = st.value, st.targets[0].id
+    g = lc.generators[0]
+    parts = [lc.elt, g.iter] + list(g.ifs)
+    inner = [n for part in parts for n in ast.walk(part)]
+    tnames = [g.target.id] if isinstance(g.target, ast.Name) else \
+        [e.id for e in g.target.elts if isinstance(e, ast.Name)] if isinstance(g.target, ast.Tuple) else []
+    ok = (len(lc.generators) == 1 and not g.is_async and tnames
+          and (isinstance(g.target, ast.Name) or len(tnames) == len(g.target.elts))
+          and len(set(tnames)) == len(tnames)
+          and not any(isinstance(n, (ast.Lambda, ast.ListComp, ast.SetComp, ast.DictComp, ast.GeneratorExp,
+                                     ast.NamedExpr)) for n in inner)
+          and not any(isinstance(n, ast.Name) and n.id in tnames for n in ast.walk(g.iter)))
+    if not ok:
+        _bad(st, "list comprehension outside the translated form")
+
+    def fresh():
+        k = 1
+        while f"_c{k}" in used:
+            k += 1
+        used.add(f"_c{k}")
+        return f"_c{k}"
+
+    acc = fresh()
+    ren = {v: fresh() for v in tnames}
+
+    class Ren(ast.NodeTransformer):
+        def visit_Name(self, n):
+            return ast.copy_location(ast.Name(id=ren[n.id], ctx=n.ctx), n) if n.id in ren else n
+
+    elt = Ren().visit(lc.elt)
+    conds = [Ren().visit(c) for c in g.ifs]
+    target = Ren().visit(g.target)
+    init = ast.copy_location(ast.Assign(targets=[ast.Name(id=acc, ctx=ast.Store())], value=ast.List(elts=[], ctx=ast.Load())),
+                             st)
+    inner_st = ast.Expr(value=ast.Call(func=ast.Attribute(value=ast.Name(id=acc, ctx=ast.Load()), attr="append",
+                                                          ctx=ast.Load()), args=[elt], keywords=[]))
+    for c in reversed(conds):
+        inner_st = ast.If(test=c, body=[inner_st], orelse=[])
+    loop = ast.copy_location(ast.For(target=target, iter=g.iter, body=[inner_st], orelse=[]), st)
+    fin = ast.copy_location(ast.Assign(
+        targets=[ast.Name(id=x, ctx=ast.Store())],
+        value=ast.Subscript(value=ast.Name(id=acc, ctx=ast.Load()), slice=ast.Slice(lower=None, upper=None, step=None),
+                            ctx=ast.Load())), st)
+    return [init, loop, fin]
+
+
+def check_plain_attrs(classdefs, attrs, class_reads=()):
     """classdefs: the class of a method and all its bases (ClassDef nodes, in order); none of them may make one of
     `attrs` anything but a plain instance attribute"""
     names = [c.name for c in classdefs]
@@ -1503,6 +1781,9 @@ def check_plain_attrs(classdefs, attrs):
                 tg = item.targets if isinstance(item, ast.Assign) else [item.target]
                 for t in tg:
                     for x in ast.walk(t):
+                        if isinstance(x, ast.Name) and x.id in class_reads and isinstance(item, ast.Assign) \
+                                and item.targets == [x] and isinstance(item.value, (ast.Name, ast.Constant)):
+                            continue    # a plain class-level default of an attribute that is only read
                         if isinstance(x, ast.Name) and (x.id in attrs or x.id == "__slots__"):
                             _bad(item, f"class {c.name} has the class attribute {x.id}")
             elif isinstance(item, ast.Expr) and isinstance(item.value, ast.Constant):
@@ -1669,6 +1950,10 @@ def translate(spec, repo):
         ctx.counter_ok = imports_counter(tree(rel))
         ctx.set_ok = not module_binds(tree(rel), "set")
         ctx.tuple_ok = not module_binds(tree(rel), "tuple")
+        ctx.dictzip_ok = not module_binds(tree(rel), "dict") and not module_binds(tree(rel), "zip")
+        ctx.map_ok = not module_binds(tree(rel), "map")
+        ctx.raise_state = None
+        ctx.outputs = dict(spec.get("outputs", {}))
         ctx.plain_imports = {al.name for n in tree(rel).body if isinstance(n, ast.Import) for al in n.names
                              if al.asname is None and "." not in al.name
                              and sum(1 for m in tree(rel).body if isinstance(m, (ast.Import, ast.ImportFrom))
@@ -1683,18 +1968,24 @@ def translate(spec, repo):
                 if len(cands) != 1 or cands[0].decorator_list:
                     raise Untranslatable(f"{rel}: method {sl['in_class']}.{fname} not found exactly once (undecorated)")
                 node = cands[0]
-                if sl.get("self_attrs") or sl.get("self_stores"):
+                if sl.get("self_attrs") or sl.get("self_stores") or sl.get("self_state") or sl.get("struct_cols"):
                     chain = [top(r, ast.ClassDef, c) for r, c in sl.get("class_chain", [])]
                     if not chain or chain[0] is not cnode:
                         raise Untranslatable(f"{fname}: class_chain must start with the class of the method")
-                    check_plain_attrs(chain, set(sl.get("self_attrs", {})) | set(sl.get("self_stores", {})))
+                    reads = set(sl.get("class_attr_reads", []))
+                    if not reads <= set(sl.get("self_attrs", {})):
+                        raise Untranslatable(f"{fname}: class_attr_reads must be attributes named in self_attrs")
+                    check_plain_attrs(chain, set(sl.get("self_attrs", {})) | set(sl.get("self_stores", {}))
+                                      | set(sl.get("self_state", {})) | set(sl.get("struct_cols", {})), reads)
             else:
                 node = top(rel, ast.FunctionDef, fname)
-                if sl.get("self_attrs") or sl.get("self_stores"):
+                if sl.get("self_attrs") or sl.get("self_stores") or sl.get("self_state") or sl.get("struct_cols"):
                     raise Untranslatable(f"{fname}: self_attrs / self_stores on a function that is not a method")
             node, writes = slice_top(node, sl)
             fname = node.name
             text_mode = sl.get("text")
+            ctx.raise_state = sl.get("raise_state")
+            ctx.outputs = dict(spec.get("outputs", {}), **sl.get("_outputs", {}))
             if fname in funs:
                 raise Untranslatable(f"{fname}: the name is already taken by a translated function")
         elif "." in fname:
